@@ -129,6 +129,12 @@ def classify(prog, path, exp, res, all_ids, leg):
     key = {"leg": leg, "expected": exp[0], "via": feats.get("via", "?"),
            "lexical": feats.get("lexical", "?"),
            "with_inside_lexical": feats.get("with_inside_lexical", "?")}
+    try:
+        _fr, _v = S.frames_for(prog, path[: path.index("->")] if "->" in path else path)
+        if any(f.kind == "with" and f.env_name and "." in f.env_name for f in _fr):
+            key["with_select_env"] = "yes"
+    except Exception:  # noqa: BLE001
+        pass
     if getattr(prog, "alias", None) is not None:
         key["alias_under_with"] = "yes" if any(f.kind == "with" for f in prog.root.wrappers) else "no"
     if res[0] == "exc":
@@ -234,7 +240,8 @@ def run_docs(spec, res, leg):
     cov.start()
     for i in range(spec["n"]):
         # alias leg: the document body is a name bound to the set in one of its let layers
-        prog = S.generate(rng, call=(leg == "call"), alias=(leg == "alias"))
+        prog = S.generate(rng, call=(leg == "call"), alias=(leg == "alias"),
+                          select_env=(leg == "doc" and rng.random() < 0.4))
         wal_text(prog.text)
         if cst.has_error(prog.text):
             res["inconclusive"] += 1
